@@ -945,6 +945,11 @@ impl ActTask for Arc<Task> {
         // update prev outputs to current task
         let outputs = ctx.task().outputs();
         self.update_data(&outputs);
+        // the reviewed task took over the outputs: keep its stored row in step even if it stays open
+        ctx.runtime
+            .cache()
+            .upsert(self)
+            .unwrap_or_else(|err| error!("review upsert={}", err));
 
         ctx.set_task(self);
 
